@@ -704,6 +704,37 @@ def magnitude_bad():
                         bad.append(f"{label} with q = {sp.N(v, 6)} m: {sp.N(got, 8)}, expected {sp.N(want, 8)}")
                 except Exception as ex:
                     bad.append(f"{label} with q = {sp.N(v, 6)} m: raised {type(ex).__name__}: {ex}")
+    # raw SymPy units and prefixed units inside an expression are quantities too: every one of them is replaced by its SI value
+    q3 = Quantity(3 * units.meter)
+    for label, call, want in (("evaluate_expression(3 m + 5*kilometer)", lambda: evaluate_expression(q3 + 5 * units.kilometer), 5003),
+                              ("evaluate_expression(3 m + 5*kilometer, evaluate=True)", lambda: evaluate_expression(q3 + 5 * units.kilometer, evaluate=True), 5003),
+                              ("evaluate_expression(90*kilometer/hour)", lambda: evaluate_expression(90 * units.kilometer / units.hour), 25),
+                              ("evaluate_expression(3 m / (2*minute))", lambda: evaluate_expression(q3 / (2 * units.minute)), sp.Rational(1, 40)),
+                              ("evaluate_expression(speed_of_light*second)", lambda: evaluate_expression(units.speed_of_light * units.second), 299792458),
+                              ("evaluate_quantity(3 m * 2*centimeter).scale_factor", lambda: evaluate_quantity(q3 * (2 * units.centimeter)).scale_factor, sp.Rational(6, 100))):
+        try:
+            got = call()
+            if sp.sympify(got).atoms(units.Quantity) or sp.sympify(got).free_symbols:
+                bad.append(f"{label}: {got} still contains units")
+            elif not rel(got, want):
+                bad.append(f"{label}: {sp.N(got, 10)}, expected {want}")
+        except Exception as ex:
+            bad.append(f"{label}: raised {type(ex).__name__}: {ex}")
+    # complex magnitudes are non-zero magnitudes: the dimension gate of a conversion applies to them as to any other
+    for zc in (3 + 4 * sp.I, 2 * sp.I, -1 - sp.I):
+        qz = Quantity(zc * units.ohm)
+        for label, call, want in ((f"convert_to(({zc}) ohm, meter)", lambda: convert_to(qz, units.meter), None), (f"convert_to(({zc}) ohm, 1)", lambda: convert_to(qz, 1), None),
+                                  (f"convert_to(({zc}) ohm, second)", lambda: convert_to(qz, units.second), None),
+                                  (f"convert_to(({zc}) ohm, milliohm)", lambda: convert_to(qz, units.ohm / 1000), 1000 * zc), (f"convert_to_si(({zc}) ohm)", lambda: convert_to_si(qz), zc)):
+            try:
+                got = call()
+                if want is None:
+                    bad.append(f"{label}: returned {got}; inequivalent dimensions must be refused")
+                elif abs(sp.N(sp.sympify(got) - want, 20)) > 1e-12 * abs(sp.N(want)):
+                    bad.append(f"{label}: {got}, expected {want}")
+            except Exception as ex:
+                if want is not None:
+                    bad.append(f"{label}: raised {type(ex).__name__}, expected {want}")
     return bad
 """
 
@@ -715,7 +746,7 @@ def part_magnitudes(ctx):
     if bad:
         ctx.violation("C07:extreme-magnitudes", "; ".join(bad[:4]) + f" ({len(bad)} cases)", MAGNITUDE_SRC + "\nimport sys\nb = magnitude_bad()\nprint(b[:8])\nif b:\n    print('REPRODUCED'); sys.exit(1)\n")
     else:
-        ctx.ob("evaluate_expression / evaluate_quantity / convert_to / convert_to_si / convert_to_float keep the value for magnitudes 1e-300 .. 1e300 (26 magnitudes x 8 calls)", "discharged", nontrivial=False)
+        ctx.ob("evaluate_expression / evaluate_quantity / convert_to / convert_to_si / convert_to_float keep the value for magnitudes 1e-300 .. 1e300 (26 magnitudes x 8 calls), replace raw SymPy units, and gate complex magnitudes by dimension", "discharged", nontrivial=False)
 
 
 def part_foreign(ctx):
